@@ -199,6 +199,34 @@ def w_geometry(cfg, tier):
                   z3_or(bad), wit,
                   f'{tag} edges (symbolic location) x all 2^{m} states: state\' = state xor (X-part column of H at the edge)')
     col.prove('C10/flip_edge/paths-cover', eng.base, z3.Not(z3_or([z3_and(p.pc) for p in ps])), wit)
+    # the invariant is ESTABLISHED by get_initial_state: the tracked pattern at step 0 is the face (X-type)
+    # part of the syndrome, every other entry 0, and the caller's array is left alone
+    if not code.is_css:      # (odd-sided RotatedToric3DCode: no X-/Z-type row masks; its seam is the known finding)
+        return col.result()
+    eng0 = Engine(name=cfg + '#init', isolate=_isolated(Dec))
+    with eng0:
+        def fn0():
+            syn = as_sa([Bit(b) for b in S])
+            st = dec.get_initial_state(syn)
+            return list(st), list(syn)
+        ps0 = eng0.explore(fn0)
+    col.absorb(eng0)
+    xm = np.asarray(code.x_indices)
+    bad0 = []
+    for p in ps0:
+        if p.exc is not None:
+            bad0.append(z3_and(p.pc))
+            continue
+        st, syn = p.value
+        d0 = [z3.BoolVal(len(st) != m)]
+        for i in range(min(m, len(st))):
+            want = S[i] if xm[i] else z3.BoolVal(False)
+            d0.append(z3.Xor(bool_term(st[i]), want))
+            d0.append(z3.Xor(bool_term(syn[i]), S[i]))
+        bad0.append(z3_and(p.pc + [z3_or(d0)]))
+    col.prove('C10/get_initial_state/is-the-face-part-of-the-syndrome', [], z3_or(bad0),
+              lambda mo: dict(init=True, signs=[1 if z3.is_true(mo.eval(b, model_completion=True)) else 0 for b in S]),
+              f'all 2^{m} syndromes: state[i] = syndrome[i] on face (X-type) stabilizers, 0 elsewhere; input untouched')
     return col.result()
 
 
@@ -485,7 +513,14 @@ def replay(path):
         print('REPLAY', 'reproduced' if bad else 'not-reproduced', oid, cfg)
         return 0
     try:
-        if cfg.startswith('geometry'):
+        if cfg.startswith('geometry') and w.get('init'):
+            syn = np.array(w['signs'], dtype=np.uint8)
+            keep = syn.copy()
+            st = np.asarray(dec.get_initial_state(syn))
+            want = np.where(np.asarray(code.x_indices), keep, 0)
+            print('syndrome', keep.tolist(), 'initial state', st.tolist(), 'face part', want.tolist())
+            bad = st.shape != want.shape or bool((st != want).any()) or bool((syn != keep).any())
+        elif cfg.startswith('geometry'):
             edge = tuple(w['edge'])
             if edge in code.qubit_index:
                 signs = np.array(w['signs'], dtype=np.uint8)
